@@ -82,6 +82,10 @@ EXPLANATION += (
     ' Round 12: single elements and the length of a request the function sorts are order-free summaries (R-PERM/request-order).'
 )
 
+EXPLANATION += (
+    ' Round 13: a tiling loop over several arrays takes its extent from the array of the current turn (R-TILE/extent-of-the-array).'
+)
+
 RULE_TEXT = (
     "one obligation per (dispatcher, encoding member), per arm-"
     "distinctness relation, per cursor relation, per range step / slice "
